@@ -51,6 +51,15 @@
 // limit (signatures end in "max-body=exactly-the-largest-body" / "max-body=largest-body+1").
 // What happens above a limit, and Engine.ReadLimit, are C08's subject.
 //
+// Trailer sections that disagree with their announcement (added with C06's forms for seeded
+// change C06-m8): no Trailer header but 1-2 fields sent, announced but absent, announced A and
+// sent B-c / A+B-c / B-c+A / part of the announced list, each without and with a chunk extension
+// on the last-chunk line, on 0-2 chunks, x Connection form x every third header set x position,
+// requests and responses, and in front of and behind every core representative of the
+// pipelines. net/http accepts all of them; a rejection is named by how the section disagrees
+// (announceShape), so that nbhttp's recorded strictness (3 open known findings) does not mask
+// anything else.
+//
 // The per-case allocator is httpgen's lite allocator (same isolation as verif/track: fresh per
 // case, no recycling, freed memory poisoned; no call-site attribution, which cost 80 % of the CPU
 // time): ownership violations are C11's business and only counted here.
@@ -563,6 +572,115 @@ func features(g *goMsg) string {
 	return f
 }
 
+// announceShape says how the trailer section of a chunked message (raw: its bytes) disagrees with
+// the announcement in its Trailer header field(s): "unannounced-trailers" (fields sent, nothing
+// announced), "absent-announced-trailers" (announced, nothing sent), "other-than-announced-trailers"
+// (something sent, an announced field missing), "extra-unannounced-trailers" (everything
+// announced was sent, and more); "" when they agree or the message is not chunked. The sent
+// fields are the reference's (Trailer entries with a value), the announcement is read off the
+// header block (net/http removes it from the header of a chunked message).
+func announceShape(raw []byte, g *goMsg) string {
+	var t http.Header
+	var te []string
+	if g.req != nil {
+		t, te = g.req.Trailer, g.req.TransferEncoding
+	} else {
+		t, te = g.res.Trailer, g.res.TransferEncoding
+	}
+	if len(te) == 0 {
+		return ""
+	}
+	announced := map[string]bool{}
+	if end := bytes.Index(raw, []byte("\r\n\r\n")); end >= 0 {
+		for i, line := range strings.Split(string(raw[:end]), "\r\n") {
+			name, val, ok := strings.Cut(line, ":")
+			if i == 0 || !ok || !strings.EqualFold(name, "Trailer") {
+				continue
+			}
+			for _, k := range strings.Split(val, ",") {
+				if k = trimOWS(k); k != "" {
+					announced[http.CanonicalHeaderKey(k)] = true
+				}
+			}
+		}
+	}
+	sent, missing, extra := 0, 0, 0
+	for k, v := range t {
+		if len(v) > 0 {
+			sent++
+			if !announced[k] {
+				extra++
+			}
+		}
+	}
+	for k := range announced {
+		if len(t[k]) == 0 {
+			missing++
+		}
+	}
+	switch {
+	case missing == 0 && extra == 0:
+		return ""
+	case len(announced) == 0:
+		return "unannounced-trailers"
+	case sent == 0:
+		return "absent-announced-trailers"
+	case missing > 0:
+		return "other-than-announced-trailers"
+	}
+	return "extra-unannounced-trailers"
+}
+
+// announceForms are chunked bodies whose trailer section disagrees with its announcement (RFC
+// 7230 4.4: announcing is a SHOULD; net/http delivers whatever is sent), each without and with
+// a chunk extension on the last-chunk line, plus exactly announced trailers behind such a line.
+func announceForms() []bodyForm {
+	P := httpgen.Payload
+	ch := func(sizes ...int) httpgen.Body {
+		b := httpgen.Body{Kind: httpgen.BodyChunked, Chunks: [][]byte{}}
+		for i, n := range sizes {
+			b.Chunks = append(b.Chunks, P(n, i+1))
+		}
+		return b
+	}
+	A, B := H{"A", " 1"}, H{"B-c", " 22"}
+	shapes := []struct {
+		name, decl string
+		sent       []H
+	}{
+		{"unannounced[A]", "", []H{A}},
+		{"unannounced[A,B-c]", "", []H{A, B}},
+		{"announced[A]-absent", "A", nil},
+		{"announced[A, B-c]-absent", "A, B-c", nil},
+		{"announced[A]-sent[B-c]", "A", []H{B}},
+		{"announced[A]-sent[A,B-c]", "A", []H{A, B}},
+		{"announced[A]-sent[B-c,A]", "A", []H{B, A}},
+		{"announced[A, B-c]-sent[A]", "A, B-c", []H{A}},
+		{"announced[A]-sent[A]", "A", []H{A}}, // exact: here for the last-chunk extension
+	}
+	var out []bodyForm
+	for _, c := range []struct {
+		name string
+		b    httpgen.Body
+	}{{"ch[]", ch()}, {"ch[3]", ch(3)}, {"ch[10,5]", ch(10, 5)}} {
+		for _, sh := range shapes {
+			for _, le := range []string{"", ";x=y"} {
+				if le == "" && sh.name == "announced[A]-sent[A]" {
+					continue // in the base product
+				}
+				b := c.b
+				b.Declared, b.Trailers, b.LastExt = sh.decl, sh.sent, le
+				name := c.name + "-" + sh.name
+				if le != "" {
+					name += "-lastext"
+				}
+				out = append(out, bodyForm{name: name, b: b})
+			}
+		}
+	}
+	return out
+}
+
 // connFeatures names what decides the persistence of the connection: the version and the
 // Connection options close / keep-alive as the reference saw them.
 func connFeatures(g *goMsg) string {
@@ -644,6 +762,14 @@ func judge(gos []goMsg, stream []byte, client bool, every, maxBody int, attr boo
 						feature = "empty-trailer-value"
 					}
 				}
+			}
+			// a trailer section that disagrees with its announcement is named by how it disagrees
+			from := 0
+			if got > 0 {
+				from = gos[got-1].end
+			}
+			if sh := announceShape(stream[from:gos[got].end], &gos[got]); sh != "" {
+				feature = sh
 			}
 		}
 		viol = append(viol, mismatch{sig: fmt.Sprintf("rejects-wellformed verdict=%s state=%s feature=%s", httpgen.ErrKind(r.Verdict), httpgen.StateName(r.ErrState), feature),
@@ -1417,6 +1543,67 @@ func run(tier string, sh *vkit.Shard, p *vkit.Part) {
 			}
 		}
 	}
+	// trailer sections that disagree with their announcement (and last-chunk extensions): every
+	// form x Connection form x every third header set x position, requests and responses; then
+	// every form with one chunk in front of and behind every core representative
+	af := announceForms()
+	var hsReq3, hsRes3 [][]H
+	for i := 0; i < len(hsReq); i += 3 {
+		hsReq3 = append(hsReq3, hsReq[i])
+	}
+	for i := 0; i < len(hsRes); i += 3 {
+		hsRes3 = append(hsRes3, hsRes[i])
+	}
+	httpgen.Product([]int{len(af), len(connForms), len(hsReq3), 2}, 1, func(lin int, ix []int) {
+		b, cf, hs, ff := af[ix[0]], connForms[ix[1]], hsReq3[ix[2]], ix[3] == 1
+		item(func() {
+			method, target := methods[ix[2]%len(methods)], targets[ix[1]%len(targets)]
+			m := (&httpgen.Req{Method: method, Target: target, Version: "HTTP/1.1", Headers: withConn(hs, cf, ix[2]%3), Body: b.b, FramingFirst: ff}).Build()
+			m.Desc = fmt.Sprintf("areq#%d %s %s hdrset=%d conn=%q body=%s framingFirst=%v", lin, method, target, ix[2]*3, []string(cf), b.name, ff)
+			e.stream(m, false, "")
+			p.Count("grammar_requests.trailer_announcement", 1)
+		})
+	})
+	httpgen.Product([]int{len(af), len(connRes), len(hsRes3), 2}, 1, func(lin int, ix []int) {
+		b, cf, hs, ff := af[ix[0]], connRes[ix[1]], hsRes3[ix[2]], ix[3] == 1
+		item(func() {
+			st := []string{"200 OK", "404 Not Found"}[ix[2]%2]
+			m := (&httpgen.Res{Version: "HTTP/1.1", Status: st, Headers: withConn(hs, cf, ix[2]%3), Body: b.b, FramingFirst: ff}).Build()
+			m.Desc = fmt.Sprintf("ares#%d %s hdrset=%d conn=%q body=%s framingFirst=%v", lin, st, ix[2]*3, []string(cf), b.name, ff)
+			e.stream(m, true, "")
+			p.Count("grammar_responses.trailer_announcement", 1)
+		})
+	})
+	for _, set := range []struct {
+		reps   []rep
+		client bool
+	}{{requestReps(), false}, {responseReps(), true}} {
+		set := set
+		for i, f := range af {
+			if !strings.HasPrefix(f.name, "ch[3]-") {
+				continue
+			}
+			var m *httpgen.Msg
+			if set.client {
+				m = (&httpgen.Res{Version: "HTTP/1.1", Status: "200 OK", Headers: []H{{"X-R", fmt.Sprintf(" a%d", i)}}, Body: f.b, FramingFirst: i%2 == 1}).Build()
+			} else {
+				m = (&httpgen.Req{Method: "POST", Target: fmt.Sprintf("/a%d", i), Version: "HTTP/1.1", Headers: []H{{"Host", " h"}, {"X-R", fmt.Sprintf(" a%d", i)}}, Body: f.b, FramingFirst: i%2 == 1}).Build()
+			}
+			m.Desc = fmt.Sprintf("a%d:%s", i, f.name)
+			for _, r := range set.reps {
+				if !r.core {
+					continue
+				}
+				r := r
+				item(func() {
+					e.stream(httpgen.Pipeline(m, r.m), set.client, "")
+					e.stream(httpgen.Pipeline(r.m, m), set.client, "")
+					p.Count("pipelines", 2)
+					p.Count("pipeline_pairs.trailer_announcement", 2)
+				})
+			}
+		}
+	}
 	if skipped > 0 {
 		p.Incompletef("wall-clock cap reached: %d work items of this shard were not enumerated", skipped)
 	}
@@ -1450,12 +1637,13 @@ func replay(_ string, raw json.RawMessage) string {
 func main() {
 	vkit.Main(&vkit.Spec{
 		Property: "C07", Level: "model_checking",
-		Rule: "one case = (well-formed byte stream, feed); the feed is one piece or byte-at-a-time; the stream is (a) one message of the grammar: full product of body/framing spelling x Connection form x header set x framing-header position x method x target x version (responses: x status); (b) one message of the cross forms - header features that are legal on every framing class, on the classes the base product lacks them: a Trailer declaration (one name, a list, two lines, lower case) on every bodiless / Content-Length form, a declaration written in front of Transfer-Encoding or over two lines on chunked forms, Transfer-Encoding spellings x {no chunk, trailers}, Content-Length spellings of an empty body - x Connection form x header set x position x version; (c) responses: 17 status-line spellings inside the RFC 7230 grammar (empty reason-phrase, several words, leading digit / punctuation, HTAB, surrounding SP) x one body form per framing class x Connection form x header set x position x version; (d) every ordered pair and triple of the 10 base requests / 8 base responses; (e) every ordered pair of the representative set - one representative per (framing class x body presence: bodiless, Content-Length 0 / 3, chunked without / with a chunk) x (trailer declaration: none, names A, names B-c + D; declared and sent on a chunked message, declared only on any other) x (Connection form / version: HTTP/1.1 absent / keep-alive / close / 'x, close', HTTP/1.0 absent / keep-alive), each with its own target and marker header; responses: + 15 status-line spellings - and every ordered triple of its core (no Connection header, HTTP/1.1; thorough: of the whole set); (f) the configured body limit: 14 body-carrying forms (Content-Length 1 / 3 / 300 / 1500, chunked with 1-3 chunks up to 1100 bytes, without and with trailers and extensions) alone (x Connection form x position x version, requests and responses) and in every ordered pair (triple: without the two forms above 1 KiB) of these forms plus a bodiless and an empty-body member, each run with Engine.MaxHTTPBodySize at exactly the largest body of the stream and at one above, and compared with the reference and with its own result without a limit. The stream is parsed by net/http (reference) and by the real nbhttp parser + Server/ClientProcessor and every listed field of every message plus the message boundary offset is compared; a message with predecessors that disagrees is also parsed alone on a fresh parser and, when it agrees there, reported as carried state with the predecessors' features in the signature. A case is non-trivial when the reference saw a body, a trailer, a Connection header / close decision, or more than one message; streams the reference rejects are excluded and counted",
+		Rule: "one case = (well-formed byte stream, feed); the feed is one piece or byte-at-a-time; the stream is (a) one message of the grammar: full product of body/framing spelling x Connection form x header set x framing-header position x method x target x version (responses: x status); (b) one message of the cross forms - header features that are legal on every framing class, on the classes the base product lacks them: a Trailer declaration (one name, a list, two lines, lower case) on every bodiless / Content-Length form, a declaration written in front of Transfer-Encoding or over two lines on chunked forms, Transfer-Encoding spellings x {no chunk, trailers}, Content-Length spellings of an empty body - x Connection form x header set x position x version; (c) responses: 17 status-line spellings inside the RFC 7230 grammar (empty reason-phrase, several words, leading digit / punctuation, HTAB, surrounding SP) x one body form per framing class x Connection form x header set x position x version; (d) every ordered pair and triple of the 10 base requests / 8 base responses; (e) every ordered pair of the representative set - one representative per (framing class x body presence: bodiless, Content-Length 0 / 3, chunked without / with a chunk) x (trailer declaration: none, names A, names B-c + D; declared and sent on a chunked message, declared only on any other) x (Connection form / version: HTTP/1.1 absent / keep-alive / close / 'x, close', HTTP/1.0 absent / keep-alive), each with its own target and marker header; responses: + 15 status-line spellings - and every ordered triple of its core (no Connection header, HTTP/1.1; thorough: of the whole set); (f) the configured body limit: 14 body-carrying forms (Content-Length 1 / 3 / 300 / 1500, chunked with 1-3 chunks up to 1100 bytes, without and with trailers and extensions) alone (x Connection form x position x version, requests and responses) and in every ordered pair (triple: without the two forms above 1 KiB) of these forms plus a bodiless and an empty-body member, each run with Engine.MaxHTTPBodySize at exactly the largest body of the stream and at one above, and compared with the reference and with its own result without a limit; (g) chunked messages whose trailer section disagrees with its announcement: 8 shapes (1 / 2 fields without a Trailer header, 1 / 2 announced names and no field, announced A and sent B-c / A,B-c / B-c,A, announced A,B-c and sent A) and the exactly announced one, x last-chunk line without / with an extension x 0 / 1 / 2 chunks, x Connection form x every third header set x position, requests and responses, and every one-chunk form in front of and behind every core representative. The stream is parsed by net/http (reference) and by the real nbhttp parser + Server/ClientProcessor and every listed field of every message plus the message boundary offset is compared; a message with predecessors that disagrees is also parsed alone on a fresh parser and, when it agrees there, reported as carried state with the predecessors' features in the signature. A case is non-trivial when the reference saw a body, a trailer, a Connection header / close decision, or more than one message; streams the reference rejects are excluded and counted",
 		Assumptions: []string{
 			"reference: http.ReadRequest / http.ReadResponse (Go 1.23) in a loop over one bufio.Reader, body read to EOF so that trailers are populated; consumed bytes = stream length - unread bytes",
 			"header multimap compared minus the framing headers net/http removes (Host, Transfer-Encoding, and on a chunked message Content-Length and Trailer, Connection once close has been recorded) and with values trimmed of SP/HT on both sides; on a non-chunked message net/http keeps Trailer as a plain header and it is compared like any other",
 			"not compared, because the two differ by documented design: URL.Host (nbhttp copies Host into it), ContentLength for bodiless requests (nbhttp -1, net/http 0), Request.TransferEncoding, the words of a reason phrase behind the first (nbhttp keeps the first word; net/http's Status is '<code> <reason>', nbhttp's the reason alone: the first word is compared)",
-			"excluded forms: absolute-form and authority-form targets, obs-fold, whitespace before the colon, HTTP/1.0 with Transfer-Encoding, bare LF, responses delimited by connection close, 204/304 with framing headers, Content-Length together with Transfer-Encoding, '+' signed lengths, trailers that are declared but not sent or sent but not declared on a chunked message",
+			"excluded forms: absolute-form and authority-form targets, obs-fold, whitespace before the colon, HTTP/1.0 with Transfer-Encoding, bare LF, responses delimited by connection close, 204/304 with framing headers, Content-Length together with Transfer-Encoding, '+' signed lengths",
+			"a trailer section that disagrees with its announcement (fields nobody announced, announced fields that do not arrive, other fields than the announced ones) is well-formed - RFC 7230 4.1.2 / 4.4: announcing is a SHOULD, the chunked grammar does not refer to it - and net/http accepts every such form (reference_rejected stays 0) and delivers the fields that were sent: judged. nbhttp takes the announcement as binding (ErrCRExpected in TailCR without one, the exported sentinel ErrTrailerExpected while an announced field is missing): recorded as open known findings (feature=unannounced-trailers / absent-announced-trailers / other-than-announced-trailers), not repaired",
 			"a status line that ends behind the status code without the SP ('HTTP/1.1 200' CRLF) is accepted by net/http but is outside the RFC 7230 3.1.2 grammar: it is run and what nbhttp does is counted (outside_grammar[...]), not judged",
 			"trailer fields: a field line with an empty value, with internal spaces, or repeated is well-formed (RFC 7230 3.2 / 4.1.2) and part of the compared space",
 			"pipelines: the harness connection does not act on a close decision, so the parser is expected to go on with the messages behind one that ends the connection, as the reference's reader loop does (parser-level agreement on the message boundaries)",
